@@ -14,6 +14,21 @@ from typing import Any
 from . import meta
 
 
+def dec_token(v: decimal.Decimal) -> str:
+    """exact numeric value of a Decimal, any precision (Decimal.normalize() would round to the arithmetic context)"""
+    if not v.is_finite():
+        return str(v)
+    sign, digits, exp = v.as_tuple()
+    digits = list(digits)
+    while len(digits) > 1 and digits[-1] == 0:
+        digits.pop(); exp += 1
+    while len(digits) > 1 and digits[0] == 0:
+        digits.pop(0)
+    if digits == [0]:
+        return "0"
+    return ("-" if sign else "") + "".join(map(str, digits)) + "E" + str(exp)
+
+
 def native(v: Any) -> Any:
     """Type-and-value token of a typed (XSD) Python value, from Python's own repr — not from xsd_repr."""
     t = type(v).__name__
@@ -24,7 +39,7 @@ def native(v: Any) -> Any:
     if isinstance(v, float):
         return ["v", t, repr(v)]
     if isinstance(v, decimal.Decimal):
-        return ["v", t, str(v.normalize()) if v.is_finite() else str(v)]
+        return ["v", t, dec_token(v)]
     if isinstance(v, datetime.datetime):
         off = v.utcoffset()
         return ["v", t, v.replace(tzinfo=None).isoformat(), None if off is None else off.total_seconds()]
